@@ -21,6 +21,16 @@ for f in /tmp/b-decgen/base/Dec*.v; do
 done
 ( cd "$VERIF" && bin/coqbuild Gen/GoInt.vo Gen/DecTypes.vo Gen/DecTac.vo $(cd coq && ls Gen/Dec*.v | sed 's/\.v$/.vo/') >/dev/null ) || { echo "goldens do not build"; fail=1; }
 
+echo "== operator / statement semantics of the translator itself (testdata/subset: Go results vs. translated definitions)"
+rm -rf /tmp/b-decgen/subset && mkdir -p /tmp/b-decgen/subset
+( cd "$HERE" && go run . -repo testdata/subset -spec testdata/subset_stop.json -out /tmp/b-decgen/subset >/tmp/b-decgen/subset/stop.txt 2>&1 )
+grep -q "decgen: STOP .*loop inside the body" /tmp/b-decgen/subset/stop.txt || { echo "nested loop was not rejected"; fail=1; }
+( cd "$HERE" && go run . -repo testdata/subset -spec testdata/subset.json -out /tmp/b-decgen/subset -eq /tmp/b-decgen/subset \
+  && cd testdata/subset && go run ./cmd/gen > /tmp/b-decgen/subset/examples.txt \
+  && cd /tmp/b-decgen/subset && cat DecSubset.v examples.txt > SubsetCheck.v \
+  && timeout 600 coqc -Q "$VERIF/coq" SV SubsetCheck.v && cp DecSubset.v SV_DecSubset.v \
+  && echo "subset: $(wc -l < examples.txt) Go-computed values reproduced by the translated definitions" ) || { echo "subset test FAILED"; fail=1; }
+
 echo "== mutations ($(python3 "$HERE/selftest.py" count) cases, $N workers)"
 pids=()
 for i in $(seq 0 $((N-1))); do
